@@ -1,7 +1,7 @@
 CONSTANTS
   Mode = "dec"
   DataLens = {0, 1, 2, 3, 100}
-  MaxPad = 3
+  MaxPad = 4
   MaxSlash = 3
 INIT Init
 NEXT Stutter
